@@ -134,15 +134,25 @@ Step(e) ==
 \* vacuity accounting: number of getter comparisons that were actually judged (register 2); it
 \* leaves through the FAILS set as one pseudo-entry whose clause starts with "~"
 Judged(e) == IF e.ev = "getters" /\ ~Masked(e) THEN Len(e.items) ELSE 0
+\* number of compared attributes whose ORIGINAL value is falsy but not None (0, 0.0, False, '', [],
+\* {}): these must come back as themselves, not as None or as the constructor default (register 3)
+FalsyVal(v) == \/ v[1] = "n" /\ IsZero2(v[2])
+               \/ v[1] = "b" /\ v[2] = FALSE
+               \/ v[1] = "s" /\ v[2] = ""
+               \/ v[1] \in {"l", "d"} /\ Len(v[2]) = 0
+FalsyCount(e) == IF e.ev = "node" /\ NodeOK(e)
+                 THEN Cardinality({i \in 1..Len(e.attrs) : FalsyVal(e.attrs[i][3])}) ELSE 0
 
-Init == l = 1 /\ st = Fresh /\ TLCSet(1, {}) /\ TLCSet(2, 0)
+Init == l = 1 /\ st = Fresh /\ TLCSet(1, {}) /\ TLCSet(2, 0) /\ TLCSet(3, 0)
 Next == /\ l <= Len(TraceLog)
         /\ LET e == TraceLog[l]  bad == Clauses(e) IN
              /\ IF bad # {} THEN TLCSet(1, TLCGet(1) \cup {<<e.tid, l, c>> : c \in bad}) ELSE TRUE
              /\ IF Judged(e) > 0 THEN TLCSet(2, TLCGet(2) + Judged(e)) ELSE TRUE
+             /\ IF FalsyCount(e) > 0 THEN TLCSet(3, TLCGet(3) + FalsyCount(e)) ELSE TRUE
              /\ st' = Step(e)
         /\ l' = l + 1
 Spec == Init /\ [][Next]_<<l, st>>
-Post == /\ PrintT(<<"FAILS", TLCGet(1) \cup {<<0, 1, "~judged:" \o ToString(TLCGet(2))>>}>>)
+Post == /\ PrintT(<<"FAILS", TLCGet(1) \cup {<<0, 1, "~judged:" \o ToString(TLCGet(2))>>,
+                                                   <<0, 1, "~falsy:" \o ToString(TLCGet(3))>>}>>)
         /\ PrintT(<<"CONSUMED", TLCGet("stats").diameter - 1>>)
 =============================================================================
